@@ -32,8 +32,11 @@ cd /verif
 for id in "$@"; do
   git -C /repo apply $OUT/patch.diff || { echo "patch does not apply to /repo"; break; }
   echo "== ./check $id quick with the change applied"
+  # the evidence file of the unchanged tree must survive the experiment
+  cp evidence/$id.json /verif/target/evidence.$id.keep 2>/dev/null
   timeout 1800 ./check $id quick 2>&1 | tail -6
   echo "exit=$?"
+  cp /verif/target/evidence.$id.keep evidence/$id.json 2>/dev/null
   git -C /repo checkout -- .
 done
 } > $OUT/checks.log 2>&1
